@@ -183,9 +183,30 @@ impl Prop for C13 {
                 }
             }
         }
+        // crowded directories: hundreds of files and sub-directories, half of them present in both layers
+        let crowd = |from: usize, to: usize| -> Vec<Entry> {
+            let mut v: Vec<Entry> = (from..to).map(|i| file(&format!("big/f{i:04}.bin"))).collect();
+            v.extend((from / 8..to / 8).map(|i| dir(&format!("big/d{i:03}"))));
+            v.extend((from..to).step_by(7).map(|i| file(&format!("big/d{:03}/inner{i}.bin.lz", i / 8))));
+            v
+        };
+        for (gi, li) in [(2u8, 0u8), (0, 3)] {
+            for d in ["big", "", "big/d010"] {
+                let mine = idx % nshards == shard;
+                idx += 1;
+                if !mine {
+                    continue;
+                }
+                let mut queries: Vec<Query> = (0..PATTERNS.len() as u8).map(|p| Query { dir: d.to_string(), pattern: p, localized: false, subdirs: false }).collect();
+                queries.push(Query { dir: d.to_string(), pattern: 0, localized: false, subdirs: true });
+                if !f(Case { game: gi, language: li, layers: vec![crowd(0, 420), crowd(210, 700)], writes: vec![], queries, root_style: 0 }) {
+                    return;
+                }
+            }
+        }
     }
     fn exhaustive_note(_tier: Tier) -> Option<String> {
-        Some("4 fixed layer stacks (1..=3 layers with overlapping paths, empty directories, hidden files, glob-order traps) x 6 game/language configurations x 10 directories (root, '.', nested, trailing slash, empty, missing, a file) x all 7 patterns + sub-directories + localized variants".into())
+        Some("4 fixed layer stacks (1..=3 layers with overlapping paths, empty directories, hidden files, glob-order traps) x 6 game/language configurations x 10 directories (root, '.', nested, trailing slash, empty, missing, a file) x all 7 patterns + sub-directories + localized variants; two crowded layers (700 files, 87 sub-directories, half shared) x 2 configurations x 3 directories x all patterns".into())
     }
 
     fn run(case: &Case, cx: &mut Cx) {
@@ -286,6 +307,7 @@ impl Prop for C13 {
             cx.label_if(order_trap, "glob-order-differs-from-sorted-order");
             cx.label_if(nlayers == 1 && order_trap, "single-layer-order-trap");
             cx.label_if(got.is_empty(), "empty-result");
+            cx.label_if(got.len() > 255, "result>255-entries");
             cx.label_if(q.subdirs, "subdirectories");
             cx.label_if(!q.subdirs && pat.is_some(), "with-pattern");
         }
